@@ -66,6 +66,8 @@ def parseStmt (t : String) : Option Stmt :=
   | ["tw", sig, n] => n.toNat?.map (.tw sig)
   | ["tk", sig, ms, n] => do pure (.tk false sig (← ms.toNat?) (← n.toNat?))
   | ["tkg", sig, ms, n] => do pure (.tk true sig (← ms.toNat?) (← n.toNat?))
+  | ["ts", sig, n] => n.toNat?.map (.ts true sig)
+  | ["tsn", sig, n] => n.toNat?.map (.ts false sig)
   | ["ti"] => some .ti
   | ["gj", k] => k.toNat?.map .gj
   | ["wx"] => some .wx
